@@ -241,4 +241,22 @@ theorem in_order_reassembly_lines (cfg : Cfg) (dec : Bool) (st : PState) (id : O
   rw [run_eq_runS cfg dec _ _ st hcl]
   exact in_order_reassembly cfg dec st id s1 rest hne hnum hfit
 
+/-- **C05 with interleaved lines.** The same group, with any number of lines in between that are rejected
+    (form, checksum, sequencing) or are unfragmented sentences — each no-trace in the state it arrives in
+    (`C17.Tagged`): the results produced for the group's own lines are still `expected`, and the parser
+    ends with no open group. -/
+theorem in_order_reassembly_with_noise (cfg : Cfg) (dec : Bool) (st : PState) (id : Option Nat)
+    (h : List (Bytes × Bool)) (htag : C17.Tagged cfg dec st h)
+    (l1 : Bytes) (ls : List Bytes) (hk : C17.kept h = l1 :: ls)
+    (s1 : Sentence) (rest : List Sentence)
+    (hcl : (l1 :: ls).map (C06.classify cfg) = (s1 :: rest).map some)
+    (hne : rest ≠ []) (hnum : Numbered (rest.length + 1) id 0 (s1 :: rest))
+    (hfit : fits (capOf cfg) (total (s1 :: rest))) :
+    C17.keptResults h (run cfg dec st (h.map (·.1))).1 = expected cfg dec [] (s1 :: rest) ∧
+    (run cfg dec st (h.map (·.1))).2 = ⟨none, 0, []⟩ := by
+  obtain ⟨a, b⟩ := C17.remove_all_noTrace cfg dec h st htag
+  have hr := in_order_reassembly_lines cfg dec st id l1 ls s1 rest hcl hne hnum hfit
+  rw [a, b, hk, hr]
+  exact ⟨rfl, rfl⟩
+
 end AisVerif.C05
